@@ -87,12 +87,19 @@ Definition add_machine_constraints (I : instance) (st : cpstate) : cpstate :=
   mkst (mkcp (cp_vars m) (cp_cstrs m ++ mach_cstrs I) (cp_obj m)) (st_keys st) (st_mk st).
 
 (** [_set_objective]: a new variable (its index is the number of variables so
-    far), [AddMaxEquality] over the end variables in dict order, [Minimize]. *)
+    far), [AddMaxEquality] over the end variables in dict order -- emitted
+    only [if end_times:], i.e. not for an instance without any operation (the
+    maximum of no expression cannot be satisfied; repaired in the library) --
+    then [Minimize]. The makespan variable and the objective are there in
+    either case. *)
 Definition set_objective (I : instance) (st : cpstate) : cpstate :=
   let m := st_model st in
   let mk := length (cp_vars m) in
   mkst (mkcp (cp_vars m ++ [(0, total_duration I)])
-             (cp_cstrs m ++ [CLinMax mk (map (evar I) (st_keys st))])
+             (cp_cstrs m ++ match st_keys st with
+                            | [] => []
+                            | _ :: _ => [CLinMax mk (map (evar I) (st_keys st))]
+                            end)
              (Some mk))
        (st_keys st) (Some mk).
 
